@@ -20,7 +20,7 @@ MANIFEST = {
           'the queue transmitted.',
   'note': 'Routing by a generated relay-rules file so that metric -> destination is fixed (m -> d1, n -> d2, b -> both). '
           'DESTINATION_POOL_REPLICAS, TLS and protobuf are outside the quantifier. An exception escaping stopService() is '
-          'recorded as an observation only.',
+          'recorded as an observation only. Events also include the instrumentation tick (real recordMetrics, self-metrics re-entering the send path, cumulative drop accounting) and a pooled configuration with two destinations on one host; an abandoned queue (destination disconnected for good with data queued and nothing counted) is a violation.',
 }
 
 
